@@ -174,7 +174,17 @@ class Labels:
                 out |= self.of(a)
             return out
         if k == "sub":
-            return self.of(t[1])
+            # reading an element: keys under which values were stored do not flow into the value read
+            out = set()
+            for b in t[1]:
+                if b[0] == "kelem":
+                    out |= self.of(b[2])
+                elif b[0] == "dict":
+                    for _, v in b[1]:
+                        out |= self.of(v)
+                else:
+                    out |= self.one(b)
+            return out
         if k == "elem":
             # an element of an unordered enumeration is not itself order-dependent
             return self.of(t[1]) - ORDER
